@@ -110,7 +110,8 @@ def matrix():
 
 def run(tier, seed, replay):
     out, tooldir, env = common.setup("C12", tier, seed)
-    common.proof_part(out, env, "C12", ties=["Tie/EnvTie.v"])
+    common.proof_part(out, env, "C12", ties=["Tie/SitesPanicTie.v", "Tie/EnvTie.v"])
+    common.sites_report(out, tooldir, ("panic-site",))
     cases = matrix()
     specs = []
     for name, text in cases:
